@@ -118,22 +118,39 @@ def broadcast(ex, a, b):
         return cb.shape, (lambda idx: a), cb.elem
     if cb is None:
         return ca.shape, ca.elem, (lambda idx: b)
-    if len(ca.shape) == len(cb.shape):
-        c = shape_eq(ca.shape, cb.shape)
-        if not ex.st.branch(c):
-            # numpy would broadcast size-1 axes; otherwise ValueError. Size-1 broadcasting is not modelled.
-            ones = z_or(*[(s == 1) if is_conc(s) else (z_int(s) == 1) for s in ca.shape + cb.shape])
-            if ex.st.branch(ones):
-                raise Unsupported("broadcasting of size-1 axes")
+    # numpy broadcasting (library contract): shapes are aligned on the right; per axis the sizes are equal, or one of them
+    # is 1 (that operand is repeated), else ValueError. A missing leading axis behaves like size 1.
+    ra, rb = len(ca.shape), len(cb.shape)
+    r = max(ra, rb)
+    sa = [None] * (r - ra) + list(ca.shape)
+    sb = [None] * (r - rb) + list(cb.shape)
+    out, ma, mb = [], [], []
+    for k in range(r):
+        da, db = sa[k], sb[k]
+        if da is None:
+            out.append(db); ma.append("skip"); mb.append("idx")
+        elif db is None:
+            out.append(da); ma.append("idx"); mb.append("skip")
+        else:
+            eq = (da == db) if (is_conc(da) and is_conc(db)) else (z_int(da) == z_int(db))
+            if (eq is True) or (not isinstance(eq, bool) and ex.st.branch(eq)):
+                out.append(da); ma.append("idx"); mb.append("idx")
+                continue
+            one_a = (da == 1) if is_conc(da) else (z_int(da) == 1)
+            if (one_a is True) or (not isinstance(one_a, bool) and ex.st.branch(one_a)):
+                out.append(db); ma.append("zero"); mb.append("idx")
+                continue
+            one_b = (db == 1) if is_conc(db) else (z_int(db) == 1)
+            if (one_b is True) or (not isinstance(one_b, bool) and ex.st.branch(one_b)):
+                out.append(da); ma.append("idx"); mb.append("zero")
+                continue
             ex.throw("ValueError", "operands could not be broadcast together")
-        return ca.shape, ca.elem, cb.elem
-    big, small = (ca, cb) if len(ca.shape) > len(cb.shape) else (cb, ca)
-    off = len(big.shape) - len(small.shape)
-    c = shape_eq(big.shape[off:], small.shape)
-    if not ex.st.branch(c):
-        raise Unsupported("broadcasting with unequal trailing axes")
-    fs = lambda idx, small=small, off=off: small.elem(idx[off:])
-    return big.shape, (ca.elem if big is ca else fs), (cb.elem if big is cb else fs)
+
+    def pick(c, modes):
+        def f(idx, c=c, modes=modes):
+            return c.elem(tuple((z3.IntVal(0) if m == "zero" else idx[k]) for k, m in enumerate(modes) if m != "skip"))
+        return f
+    return tuple(out), pick(ca, ma), pick(cb, mb)
 
 
 def result_dtype(ex, a, b, op=None):
@@ -153,7 +170,14 @@ def result_dtype(ex, a, b, op=None):
                 return VDtype(str(np.result_type(np.dtype(da.v), np.dtype(db.v))))
             except Exception:
                 return VDtype("float64")
-        return da
+        # at least one dtype is symbolic: equal dtypes give that dtype, otherwise numpy promotes to SOME dtype of its table
+        if not is_conc(da.v) and not is_conc(db.v) and z3.eq(da.v, db.v):
+            return da
+        t = ex.st.fresh_int("promoted_dtype")
+        ex.st.assume(z3.And(t >= 0, t < len(DTYPES)))
+        ca_, cb_ = (DTYPES.index(da.v) if is_conc(da.v) else da.v), (DTYPES.index(db.v) if is_conc(db.v) else db.v)
+        ex.st.assume(z3.Implies(z_int(ca_) == z_int(cb_), t == z_int(ca_)))
+        return VDtype(t)
     d = da or db
     other = b if da is not None else a
     if is_conc(d.v) and elem_kind(d) == "int" and isinstance(other, VFloat):
